@@ -346,6 +346,9 @@ func (e *Environment) create(name string, val Object) Object {
 }
 
 func (e *Environment) update(name string, found, val Object) Object {
+	// Never store a register: it is a slot of some environment's register file and keeps changing
+	// (or gets reused by the next loop) after the assignment. create() already copies through Value().
+	val = CopyRegister(val)
 	if vref, ok := val.(Reference); ok {
 		log.Debugf("Not setting %q to a reference %q", name, vref.Name)
 		val = Value(val)
